@@ -567,7 +567,10 @@ class Report:
         counts: dict[str, int] = {}
         for o in self.obligations:
             counts[o.rule] = counts.get(o.rule, 0) + 1
+        violated = {o.rule for o in self.obligations if not o.ok}
         for rule, minimum in self.minima.items():
+            if rule in violated:
+                continue  # a reported violation may cut the rule short
             if counts.get(rule, 0) < minimum:
                 raise AnalysisError(
                     f"rule {rule} matched {counts.get(rule, 0)} instance(s), "
